@@ -104,7 +104,7 @@ theorem release (L : StableR P) (s : KState) (k : Key) (n : Node) (_hf : s.find?
     (hp : P s) : P (s.modify k fun n => { n with holding := n.holding - 1 }) := L.cacheAt _ _ _ (fun _ => rfl) hp
 
 theorem recycled (L : StableR P) (s : KState) (k : Key) (need : Need) (shell : Bool) (hp : P s) :
-    P (s.modify k fun n => { n with need := need, shell := shell, holding := 0 }) :=
+    P (s.modify k fun n => { n with need := need, shell := shell }) :=
   L.cacheAt _ _ _ (fun _ => rfl) hp
 
 theorem queueDelete (L : StableR P) (s : KState) (path : String) (h : Option Nat) (hp : P s) :
@@ -1056,7 +1056,7 @@ theorem afterRecycle_preserves (L : StableR P) (sk : Key) (d : StepDecl) (n : No
   intro s s' hp h
   replace h : s.afterRecycle sk d n = .ok s' := h
   unfold KState.afterRecycle at h
-  have hp2 : P (s.modify sk fun n => { n with need := d.need, shell := d.shell, holding := 0 }) :=
+  have hp2 : P (s.modify sk fun n => { n with need := d.need, shell := d.shell }) :=
     L.recycled _ _ _ _ hp
   split at h
   · exact L.markStepPending'_preserves sk _ s' hp2 h
